@@ -23,7 +23,11 @@ RULE = (
     "tree over the reduced leaf alphabet with root in {+,*,/,@,Function} with one more "
     "leaf of the full alphabet on either side, unary minus, Function, previous_timestep(k) "
     "and previous_iteration(k), k in {1,2}, and a shifted copy of it combined with a "
-    "current leaf (depth 2); each on every md-grid, with an explicit state vector and "
+    "current leaf (depth 2); sums / differences / products f(a) o g(a') of every ordered pair of "
+    "different wrapped functions (exp sin log abs, user lambda) over key-identical arguments "
+    "(same variable, structurally equal sub-expressions built twice), as they are and under "
+    "previous_timestep(1,2), previous_iteration(1,2), pp.ad.time_increment, pp.ad.dt and "
+    "combined with a current leaf; each on every md-grid, with an explicit state vector and "
     "with the stored state. Trees without a pp.ad.Operator operand, and combinations "
     "without a defined meaning (shape mismatch, vector @ anything, elementwise arithmetic "
     "with projections or plain scipy matrices) are not programs. Non-trivial = distinct "
@@ -54,6 +58,8 @@ def cases(tier):
     for g in d2_grids:
         for i in range(len(O.inner_programs(g))):
             out.append({"kind": "d2", "grid": g, "inner": i, "tier": tier})
+        for i in range(len(O.FN_ARGS)):
+            out.append({"kind": "fnsum", "grid": g, "arg": i, "tier": "thorough"})
     return out
 
 
@@ -62,6 +68,8 @@ def _programs(case):
     if case["kind"] == "d1":
         f = case["first"]
         return [p for p in O.depth1(g) if O.leaves_in(p)[0] == f]
+    if case["kind"] == "fnsum":
+        return O.fn_sum_programs(g, O.FN_ARGS[case["arg"]])
     inner = O.inner_programs(g)[case["inner"]]
     return O.depth2_for_inner(g, inner, case.get("tier", "quick"))
 
